@@ -48,7 +48,7 @@ def run(shard):
     import decode_oracles as D
     import gen_data
     cdm = H.import_repo()
-    from code_data import _code_data, _blocks
+    _code_data, _blocks = H.lib("_code_data", "_blocks")
     CodeData = cdm.CodeData
     state = {"case": None, "may_raise": False, "budget": None, "steps": 0, "max_sweeps": 0}
 
